@@ -12,7 +12,8 @@ REQUIRED_THEOREMS = ['OpusProps.C20.' + t for t in (
     'dtx_first_decision', 'dtx_machine_run_bound', 'dtx_machine_refresh', 'dtx_machine_resume',
     'silk_onset', 'silk_run_bound', 'silk_refresh_resume',
     'dtx_onset', 'dtx_run_bound', 'dtx_detector_switch_no_dtx', 'dtx_resume', 'dtx_resume_counter', 'dtx_resume_silk',
-    'in_dtx_on_dtx_packets', 'counters_in_range', 'dtx_off_no_tiny')]
+    'in_dtx_on_dtx_packets', 'counters_in_range', 'regular_iff_budget', 'regular_iff_three_bytes',
+    'dtx_off_no_tiny', 'dtx_stream_decodes')]
 UNPROVED = []
 RULE = ('seeded generation of whole encoder runs (Fs x channels x application x complexity 0..10 x VBR/CVBR/CBR x bitrate '
         'classes incl. auto/max/near the low-budget boundary x output buffer x all nine frame durations x DTX on/off x FEC x '
@@ -28,29 +29,33 @@ NOT_COVERED = [
     'that the tonality analyser / SILK VAD classify non-silent inactivity correctly (their decisions are oracles; the '
     'witness search takes the detector\'s own decision as premise)',
     'the "gray zone" of dtx_off_no_tiny: for packets longer than 20 ms the code emits 1-2 byte PLC packets below 300 bytes/s '
-    'or 2400 bit/s (src/opus_encoder.c:1267) although buffer and bitrate would allow three bytes; the theorem and the search '
-    'use the code\'s own low-budget predicate as the meaning of "bitrate and buffer allow" (counted as gray_tiny)',
+    'or 2400 bit/s (src/opus_encoder.c:1267) although buffer and bitrate would allow three bytes per frame: decided to be a '
+    'violation of the property text, recorded as known finding C20-low-budget-long-frames (deterministic scenario low-budget-gray)',
     'that the SILK payload fits the frame budget (branch ec_tell(&enc) > (max_data_bytes-1)*8, the 2-byte TOC+00 packet): an '
     'explicit hypothesis (NoBust) of dtx_off_no_tiny / dtx_resume / dtx_onset, recorded per call as an oracle in the '
     'correspondence run; the real encoder violates it on tight buffers with FEC (known finding C20-silk-bust-2byte), any other '
     '<=2-byte packet with DTX off is reported as a violation by the witness search',
-    'decoder side (durations, near-silence in the gap, normal audio afterwards): witness search on the implementation only; '
-    'the packet-length <= 1 => PLC/CNG step is part of the C01/C09 decoder skeleton',
+    'decoder side: durations are proved on the decoder skeleton (dtx_stream_decodes); near-silence in the gap and normal audio '
+    'afterwards are DSP behaviour, witness search on the implementation only (calibrated levels, tools/c20_calibration.json)',
     'fixed-point build (silk/fixed/encode_frame_FIX.c has the same machine; complexity >= 10 threshold) is not built here']
 ASSUMPTIONS = [
-    'oracle contract OpusModel.Dtx.oracleOk = shapeOk && coherentOk. shapeOk (main silk_Encode call has prefillFlag 0 and 1..3 SILK '
-    'frames of <= 20 ms, at most one prefill call before it; st->mode set once the frame loop is reached) is monitored on every '
-    'call of the correspondence run (the driver answers BAD-ORACLE). coherentOk (an invalid call-level analysis result on '
-    'non-silent input implies invalid per-frame results) is assumed by in_dtx_on_dtx_packets, dtx_run_bound, dtx_resume_silk and '
-    'dtx_detector_switch_no_dtx; the real encoder violates it on rare calls (a multi-frame packet in which the first valid '
-    'analysis result appears after the first coded frame: about 1 call in 100 000, counted as incoherent_valid); on those calls '
-    'the per-call correspondence and the witness search are the only guard',
+    'oracle contract OpusModel.Dtx.oracleOk (= shapeOk: the main silk_Encode call of a coded frame has prefillFlag 0 and 1..3 SILK '
+    'frames of <= 20 ms, at most one prefill call before it; st->mode is set once the frame loop is reached): true by construction, '
+    'monitored on every call of the correspondence run (the driver answers BAD-ORACLE). No coherence assumption between the '
+    'call-level and the per-frame analysis results is made any more (the frame tail follows the call-level choice of detector, '
+    'src/opus_encoder.c:2432)',
     'inner-encoder contract NoBust (the coded payload fits the frame budget) in dtx_off_no_tiny, dtx_resume and dtx_onset: an explicit '
     'hypothesis, recorded as an oracle per call; violated by the real SILK encoder on tight buffers with FEC (known finding '
     'C20-silk-bust-2byte)',
+    'Regular c in dtx_off_no_tiny / dtx_onset / dtx_resume is the code\'s own budget rule (regular_iff_budget); it coincides with "three '
+    'bytes per frame" for packets of at most 20 ms (regular_iff_three_bytes) and is stricter for longer packets (known finding '
+    'C20-low-budget-long-frames)',
     'settings are not changed between the calls of a run in the run-level theorems (Cfg is fixed; dtx_run_bound and '
     'dtx_detector_switch_no_dtx hold from ANY state, hence after any history of setting changes, for the calls that follow); the '
     'per-call correspondence also covers runs with mid-stream ctl changes',
+    'dtx_stream_decodes rests on the decoder skeleton and contracts of C01 (OpusProps.C01.decodeNative_duration / _plc_duration) and on '
+    'the C11 model of gen_toc (OpusModel.EncDecide.genToc); that the bytes of a real DTX packet are dtxBytes is checked on the '
+    'implementation by the witness search (dtx_packet_shape)',
     'float build, DRED off (the configuration of the baseline build)']
 TRUSTED = ['harness/c20_dtx.c records the locals activity / is_silence / analysis_info->valid / to_celt of '
            'opus_encode_frame_native through the RESTORE_STACK macro (a no-op in this build) and wraps silk_Encode and '
@@ -100,6 +105,7 @@ def ties(ctx):
     out.append(_tie(ctx, 'dtx-silence-grid', ['scen', 'silence-grid', str(first), '648', str(stride), '0', 'tie']))
     out.append(_tie(ctx, 'dtx-regime-switch', ['scen', 'regime-switch', '0', '16', '1', '0', 'tie']))
     out.append(_tie(ctx, 'dtx-silk-bust', ['scen', 'silk-bust', '0', '1', '1', '0', 'tie']))
+    out.append(_tie(ctx, 'dtx-nan-pattern', ['scen', 'nan-pattern', '0', '11', '2', '0', 'tie']))
     return out
 
 
@@ -200,6 +206,7 @@ def search(ctx):
     _run_search(h, ['scen', 'regime-switch', '0', '16', '1', '0'], env, wit, stats)
     _run_search(h, ['scen', 'silk-bust', '0', '1', '1', '0'], env, wit, stats)
     _run_search(h, ['scen', 'low-budget-gray', '0', '1', '1', '0'], env, wit, stats)
+    _run_search(h, ['scen', 'nan-pattern', '0', '11', '1', '0'], env, wit, stats)
     # 2. digital silence at complexity >= 7 / Fs >= 16 kHz must reach DTX within the stated window (real detector)
     stride = 6 if q else 1
     _run_search(h, ['scen', 'silence-grid', str(ctx.seed % stride), '648', str(stride), '0'], env, wit, stats)
@@ -261,7 +268,9 @@ LEVEL_TEXT = ('proof: Lean model of decide_dtx_mode, the SILK noSpeechCounter/in
               '(|t - 200 ms| < F for every API rate and frame duration), frame-level and SILK-level run bounds and refresh for '
               'every schedule, packet-level run bound for every run of calls whichever detector is in charge of which call (a call at '
               'which the detector changes never returns a DTX packet), resume under both detectors, in-DTX '
-              'query true after every DTX packet of any run, no DTX/low-budget return with DTX off and a regular budget; '
+              'query true after every DTX packet of any run, no DTX/low-budget return with DTX off and a regular budget (the budget rule '
+              'in bitrate/buffer terms), the decoder skeleton returns the exact duration for every DTX packet shape and the requested '
+              'frame_size for losses; '
               'constants regenerated from silk/define.h; model tied to the real encoder per call and per run (oracles recorded '
               'from the running encoder).')
 LEVEL_NOTE = ('trusted: Lean kernel; extractor + regen; the recording harness (macro/#define wrapping of the included '
